@@ -273,7 +273,9 @@ EXPLANATION = ("NEXTFLOW SIDE (C19_nf_*, C19_script_globs_*): harness/nf_reader.
                "the value the file holds, the dict get_theta_and_dist_chunks returns = the directory it names.  validate_job_dir_and_return_meta: its job directory = the list of marker files the glob "
                "matches (marker_dir; in examine's configuration marker_dir_of = what that glob finds in the world: a torn file for a step in the torn set, the whole file of f_meta, or none), a file = the JSON "
                "document it holds or None (mfile), json.load = that option with None = it raises - and what it raises is a ValueError, the class the source's `except` names (translator key try_except_classes) -, "
-               "isinstance(o, dict) / 'n_unobserved_plates' not in o = tests on the document (jval: a dict with / without that key, or anything else).  run_next_*: os.path.splitext(os.path.basename(input_screen)) = an unmodelled name, "
+               "isinstance(o, dict) = a test on the document (jval: a dict with / without that key, or anything else), 'n_unobserved_plates' not in o = the key test on a dict and an EXCEPTION on anything else "
+               "(None, a list, a number: not a key test in Python), bound inside the branch of the `or` in which Python evaluates it (translator key short_circuit) - the link proves it is never reached, i.e. that the "
+               "isinstance test guards it.  run_next_*: os.path.splitext(os.path.basename(input_screen)) = an unmodelled name, "
                "meta['n_unobserved_plates'] = the entry of the loaded document (jget_nup: KeyError / TypeError otherwise - proved unreachable), every read of the output directory = a read of the tree AFTER the "
                "actions done so far (tree_after; examine, the one reader of marker files: tfs_after, with the torn set); main()'s link runs both functions on worlds without torn markers; effects: shutil.rmtree(job dir) = ARmTree, "
                "os.makedirs(job dir) = AMkIter then AMkPlate; t['thetas'] / t['dist_chunks'] = the two glob patterns under the directory t that get_theta_and_dist_chunks answered; the calls run_initial_plate / "
